@@ -1,6 +1,6 @@
 (** * C14 - NFT draw picks min(available, payers) distinct payers; fees reconcile. *)
 From Coq Require Import Permutation.
-From LP Require Import Proofs.Tactics Proofs.LedgerBase Proofs.Gates Proofs.Frames Proofs.Nft Proofs.Examples.
+From LP Require Import Proofs.Tactics Proofs.LedgerBase Proofs.Gates Proofs.Frames Proofs.Nft Proofs.Examples Proofs.NftLedger.
 Open Scope N_scope.
 
 (** paying the fee: only in the confirmation window, only after the SFT set-up, only with confirmed
@@ -65,6 +65,37 @@ Theorem C14_owner_proceeds : forall e w w',
             else bal w).
 Proof. exact claim_nft_payment_spec. Qed.
 
+(** ** the fee ledger ([FeeInv]: fee asset held = fee x payers not yet settled + proceeds not yet
+    withdrawn; the fee asset is not the SFT collection) *)
+Theorem C14_fee_draw : forall (H : list N -> list N) b w r w' r' b',
+  FeeInv w -> nft_winners (st w) = [] -> claimable_nft (st w) = 0 ->
+  select_nft_winners H b w r = Ok (w', r', true, b') ->
+  FeeInv (set_claimable_nft w') /\
+  claimable_nft (st (set_claimable_nft w')) =
+    nft_amt (st w) * N.min (total_nfts (st w)) (N.of_nat (length (nft_payers (st w)))).
+Proof. exact FeeInv_draw. Qed.
+
+(** a claim cannot fail for lack of the fee asset; a loser gets the fee back, once *)
+Theorem C14_fee_claim : forall e w,
+  FeeInv w -> sft_ready (st w) = true -> caller e <> sc_addr ->
+  exists w', claim_nft e w = Ok w' /\ FeeInv w' /\ claimable_nft (st w') = claimable_nft (st w) /\
+    let a := caller e in
+    nft_payers (st w') = (if mem a (nft_winners (st w)) then nft_payers (st w)
+                          else if mem a (nft_payers (st w)) then swap_remove a (nft_payers (st w)) else nft_payers (st w)).
+Proof. exact FeeInv_claim. Qed.
+
+Theorem C14_fee_owner : forall e w,
+  FeeInv w -> get_launch_stage e (st w) = Claim -> caller e <> sc_addr ->
+  exists w', claim_nft_payment e w = Ok w' /\ FeeInv w' /\ claimable_nft (st w') = 0 /\
+    nft_payers (st w') = nft_payers (st w) /\
+    bal w' (caller e) (nft_tok (st w)) (nft_nonce (st w)) =
+    bal w (caller e) (nft_tok (st w)) (nft_nonce (st w)) + claimable_nft (st w).
+Proof. exact FeeInv_owner. Qed.
+
+Theorem C14_fee_drained : forall w,
+  FeeInv w -> nft_payers (st w) = [] -> claimable_nft (st w) = 0 -> fee_held w = 0.
+Proof. exact FeeInv_drained. Qed.
+
 Example C14_nonvacuous :
   swap_remove 3 [2; 3; 4; 5] = [2; 5; 4] /\ swap_remove 5 [2; 3; 4; 5] = [2; 3; 4] /\ swap_remove 9 [2; 3] = [2; 3] /\
   claimable_nft (set_claimable_nft (world0 (state0 <| nft_amt := 50 |> <| nft_winners := [4; 7] |>))).(st) = 100.
@@ -76,4 +107,8 @@ Print Assumptions C14_swap_remove.
 Print Assumptions C14_claim.
 Print Assumptions C14_blacklisted_payer.
 Print Assumptions C14_owner_proceeds.
+Print Assumptions C14_fee_draw.
+Print Assumptions C14_fee_claim.
+Print Assumptions C14_fee_owner.
+Print Assumptions C14_fee_drained.
 Print Assumptions C14_nonvacuous.
